@@ -127,16 +127,23 @@ def check(ctx):
     ctx.touch(qb)
     pb = only(itb.run_function(qb), qb, ctx, "C08-b")
     evs = [e for e in pb.events if e.kind == "ext_call" and e.data["callee"] in QUADRATURE]
-    if len(evs) != 1:
+    if len(evs) > 1:
         raise AnalysisError(f"{qb}: expected one quadrature call")
-    where = f"{fb.file}:{evs[0].line}"
-    y = check_quadrature(ctx, "C08-b", evs[0], itb, {"pressure"}, qb + ":cumulative_trapezoid", where)
     from ..values import DictV
 
     tbl = pb.value
     col = tbl.items.get("pseudopressure") if isinstance(tbl, DictV) else None
-    k = _factor(itb, col, evs[0]) if col is not None else None
-    xg = evs[0].data["args"].get("x")
+    if evs:
+        where = f"{fb.file}:{evs[0].line}"
+        y = check_quadrature(ctx, "C08-b", evs[0], itb, {"pressure"}, qb + ":cumulative_trapezoid", where)
+        k = _factor(itb, col, evs[0]) if col is not None else None
+        xg = evs[0].data["args"].get("x")
+    else:
+        # no library quadrature: the column has to be a hand-written cumulative trapezoid rule over the pressure grid
+        where = fb.where()
+        if col is None:
+            raise AnalysisError(f"{qb}: no 'pseudopressure' column in the returned table")
+        y, k, xg = _handwritten_column(ctx, itb, col, qb, where, tbl)
     if y is not None and k is not None and isinstance(xg, Vec):
         grid = xg.gen
         # mu and Z columns are the correlations evaluated at the grid pressure (bound by name)
@@ -167,6 +174,52 @@ def check(ctx):
     viscosity_rules(ctx, "C08-e")
     isotherm_rules(ctx, "C08-e")
     ctx.floor("C08", len(ctx.obligs), 9, "pseudopressure route obligations")
+
+
+def _handwritten_column(ctx, it, col, qb, where, tbl):
+    """(ordinate NF per row, constant factor, grid Vec) of a table column computed by a hand-written cumulative
+    trapezoid rule over the table's own (explicit) pressure grid:  column == k * concat(0, cumsum(panel_j)) with
+    panel_j == 1/2 (Y(x_{j+1}) + Y(x_j)) (x_{j+1} - x_j),  Y(x) = x / (mu(x) Z(x))  for the one viscosity and the one
+    Z-factor term evaluated at the grid pressure that occur in the panel."""
+    from .common import is_root_variable, zero_start
+    VQ, ZQ = GAS + "viscosity_Sutton", GAS + "z_factor_DAK"
+
+    vn = it.to_nf(col)
+    grid = tbl.items.get("pressure") if hasattr(tbl, "items") else None
+    rule, construct = "C08-b", qb + ":hand-written trapezoid"
+    if not (isinstance(grid, Vec) and is_root_variable(it, grid, {"pressure"})):
+        raise AnalysisError(f"{qb}: neither a library quadrature call nor a hand-written rule over an explicit pressure grid")
+    X = grid.gen
+    shift = lambda p: nf.subst_sym(p, {"@J": nf.add(nf.sym("@J"), nf.ONE)})
+    gens = []
+    for a in nf.atoms(vn):
+        if a[0] == "fn" and a[1] in ("cumsum", "numpy.cumsum") and a[2]:
+            arg = it.single_atom(nf.unkey(a[2][0]))
+            if arg is not None and arg[0] == "fn" and arg[1] == "vec" and len(arg[2]) == 2:
+                gens.append(nf.unkey(arg[2][0]))
+    if len(gens) != 1:
+        raise AnalysisError(f"{qb}: neither a library quadrature call nor a running sum of panels found in the 'pseudopressure' column")
+    gen = gens[0]
+    Xk = nf.key(X)
+    mus = sorted({a for a in nf.atoms(gen) if a[0] == "fn" and a[1] == VQ and len(a[2]) > 1 and a[2][1] == Xk}, key=repr)
+    zs = sorted({a for a in nf.atoms(gen) if a[0] == "fn" and a[1] == ZQ and len(a[2]) > 1 and a[2][1] == Xk}, key=repr)
+    if len(mus) != 1 or len(zs) != 1:
+        ctx.bad(rule, construct, where, "the panels are built from viscosity_Sutton and z_factor_DAK at the row's own pressure", signature="hand-written quadrature: integrand terms", panel=nf.show(gen, 300))
+        return None, None, None
+    Y = nf.div(X, nf.mul(nf.atom_poly(mus[0]), nf.atom_poly(zs[0])))
+    panel = nf.mul(nf.scale(nf.add(shift(Y), Y), nf.F(1, 2)), nf.sub(shift(X), X))
+    if not nf.equal(gen, panel):
+        ctx.bad(rule, construct, where, "a hand-written quadrature is the cumulative trapezoid rule: panel j == 1/2 (Y[j+1] + Y[j]) (p[j+1] - p[j]) with Y = p / (mu Z) over the table's pressure grid", signature="hand-written quadrature: panel", panel=nf.show(gen, 300))
+        return None, None, None
+    ctx.ok(rule, construct, where, "hand-written cumulative trapezoid: panels 1/2 (Y[j+1] + Y[j]) (p[j+1] - p[j]) over the table's pressure grid", ordinate=nf.show(Y, 300))
+    ctx.check(zero_start(it, vn), rule, construct + ":initial", where, "the running integral is prefixed with a zero (result starts at zero and has the length of the grid)", signature="initial", value=nf.show(vn, 300))
+    k = None
+    for a in nf.atoms(vn):
+        if a[0] == "fn" and a[1].split("{")[0] in ("numpy.concatenate", "numpy.hstack", "numpy.append", "numpy.r_", "numpy.insert"):
+            r = nf.div(vn, nf.atom_poly(a))
+            if nf.is_const(r) and r:
+                k = r
+    return Y, k, grid
 
 
 def _factor(it, value, ev):
